@@ -4,3 +4,27 @@ cd /verif
 export GOFLAGS=-mod=mod GOPROXY=off GOSUMDB=off GOTOOLCHAIN=local
 go build -o bin/vinstr ./tools/vinstr
 ./bin/vinstr -out "$1" -chan pkg/p2p/message_protocol.go
+# clock seam: message.go stamps (and, after some changes, derives identifiers from) time.Now(); the harness pins it
+python3 - "$1" <<'PY'
+import json, os, sys
+out = sys.argv[1]
+ov = json.load(open(os.path.join(out, "overlay.json")))
+rep = ov["Replace"]
+mut = {}
+mo = os.environ.get("VERIF_MUT_OVERLAY", "")
+if mo and os.path.exists(mo):
+    mut = json.load(open(mo))["Replace"]
+src = "/repo/pkg/p2p/message.go"
+s = open(rep.get(src, mut.get(src, src))).read()
+assert "time.Now()" in s, "message.go no longer reads time.Now()"
+s = s.replace("time.Now()", "vclock.Now()")
+s = s.replace('import (', 'import (\n\tvclock "github.com/LiskHQ/lisk-engine/pkg/verifrt/vclock"', 1)
+if "time." not in s.replace('"time"', ''):
+    s = s.replace('\t"time"\n', '', 1)
+os.makedirs(os.path.join(out, "src/pkg/p2p"), exist_ok=True)
+dst = os.path.join(out, "src/pkg/p2p/message.go")
+open(dst, "w").write(s)
+rep[src] = os.path.abspath(dst)
+rep["/repo/pkg/verifrt/vclock/vclock.go"] = "/verif/verifrt/vclock/vclock.go"
+json.dump(ov, open(os.path.join(out, "overlay.json"), "w"), indent=1)
+PY
